@@ -103,6 +103,17 @@ GStoreNew(s) ==
     {[E0 EXCEPT !.kind = "Store", !.creator = "a04", !.provider = "a02", !.gw = Gateway, !.owner = "d1", !.signer = "d1",
                 !.data = d, !.commit = d, !.cseg = <<d>>, !.op = 1, !.dur = GDur(s, 0), !.replica = 1, !.timeout = GTo(s, 0),
                 !.size = GSize(s, 0), !.alias = "al" \o d] : d \in {x \in GData(s) : ~HasMeta(s, x)}}
+\* further shapes for the generator: a sid DID as owner (once GenDid has created s1), its bound account submitting itself
+\* (pending order, Ready by the gateway), a sponsor paying for another owner
+GStoreMore(s) ==
+    UNION {{[E0 EXCEPT !.kind = "Store", !.creator = c, !.provider = Gateway, !.gw = Gateway, !.owner = "s1", !.signer = "s1",
+                        !.data = d, !.commit = d, !.cseg = <<d>>, !.op = 1, !.dur = GDur(s, 3), !.replica = 1, !.timeout = GTo(s, 3),
+                        !.size = GSize(s, 3), !.alias = "al" \o d] : c \in {Gateway, "a04"}}
+           \cup {[E0 EXCEPT !.kind = "Store", !.creator = "a05", !.provider = Gateway, !.gw = Gateway, !.owner = "d2", !.signer = "d2", !.paydid = "d1",
+                            !.data = d, !.commit = d, !.cseg = <<d>>, !.op = 1, !.dur = GDur(s, 4), !.replica = GRep(s, 4), !.timeout = GTo(s, 4),
+                            !.size = GSize(s, 4), !.alias = "al" \o d]}
+           : d \in {x \in GData(s) : ~HasMeta(s, x)}}
+    \cup {[E0 EXCEPT !.kind = "Ready", !.creator = Gateway, !.provider = Gateway, !.order = o.id] : o \in {x \in Rng(s.orders) : x.status = OPending}}
 GStoreUpd(s) ==
     UNION {LET nc == "c" \o ToString(s.oc) IN
            {[E0 EXCEPT !.kind = "Store", !.creator = cr, !.provider = Gateway, !.gw = Gateway, !.owner = sg, !.signer = sg, !.sigmode = sm,
@@ -282,7 +293,7 @@ Events(s) ==
       [] Family = "sidauth" -> SidAuthEvents(s)
       [] Family = "sponsor" -> SponsorEvents(s)
       [] Family = "fault"   -> FaultEvents(s)
-      [] Family = "gen" -> GStoreNew(s) \cup GStoreUpd(s) \cup GCompletes(s) \cup GCancels(s) \cup GSigned(s)
+      [] Family = "gen" -> GStoreNew(s) \cup GStoreMore(s) \cup GStoreUpd(s) \cup GCompletes(s) \cup GCancels(s) \cup GSigned(s)
                            \cup Migrates(s) \cup Claims(s) \cup GBlocks(s) \cup GenDid(s) \cup GenStaking(s) \cup GenFaults(s)
       [] Family = "pay" -> StoreNew(s) \cup StoreUpd(s) \cup Completes(s) \cup Cancels(s) \cup Terminates(s) \cup Renews(s)
                            \cup Migrates(s) \cup Claims(s) \cup BlocksEv(s)
